@@ -320,9 +320,10 @@ impl Agg {
             } + if is_json { 10 } else { 0 }] += 1;
             if e.is_dec && !is_json {
                 use crate::store::WStep;
+                // (the top-level record may legitimately be written through serialize_map)
                 match (f.what, f.depth) {
-                    (WStep::OpenStruct, 0) => self.probes[P_W_OPEN] += 1,
-                    (WStep::Field, 1) => self.probes[P_W_FIELD] += 1,
+                    (WStep::OpenStruct, 0) | (WStep::OpenOther, 0) => self.probes[P_W_OPEN] += 1,
+                    (WStep::Field, 1) | (WStep::Element, 1) => self.probes[P_W_FIELD] += 1,
                     (WStep::End, 1) => self.probes[P_W_END] += 1,
                     (_, d) if d >= 2 => self.probes[P_W_NESTED] += 1,
                     _ => {}
